@@ -801,6 +801,15 @@ fn perform(c: &mut Commands, action: Action, resolved: &Resolved)
         Action::Nothing => {}
         Action::RunSys(e) => c.queue(SystemCommand(e)),
         Action::RunMany(e, n) => { for _ in 0..n { c.queue(SystemCommand(e)); } }
+        // one payload in three takes the `World` route of the same call from inside a queued command closure (the way an
+        // exclusive system or a custom command sends it): the delivery is applied in-line by that closure, possibly
+        // while its target is executing
+        Action::SysEvent(e, 0, id) if id % 3 == 1 => { let p = Pay::<0>::of_case(id); c.queue(move |w: &mut World| w.send_system_event(SystemCommand(e), p)); }
+        Action::SysEvent(e, _, id) if id % 3 == 1 => { let p = Pay::<1>::of_case(id); c.queue(move |w: &mut World| w.send_system_event(SystemCommand(e), p)); }
+        Action::Broadcast(0, id) if id % 3 == 1 => { let p = Pay::<0>::of_case(id); c.queue(move |w: &mut World| w.broadcast(p)); }
+        Action::Broadcast(_, id) if id % 3 == 1 => { let p = Pay::<1>::of_case(id); c.queue(move |w: &mut World| w.broadcast(p)); }
+        Action::EntityEvent(e, 0, id) if id % 12 == 4 => { let p = Pay::<0>::of_case(id); c.queue(move |w: &mut World| w.entity_event(e, p)); }
+        Action::EntityEvent(e, _, id) if id % 12 == 4 => { let p = Pay::<1>::of_case(id); c.queue(move |w: &mut World| w.entity_event(e, p)); }
         Action::SysEvent(e, 0, id) => c.send_system_event(SystemCommand(e), Pay::<0>::of_case(id)),
         Action::SysEvent(e, _, id) => c.send_system_event(SystemCommand(e), Pay::<1>::of_case(id)),
         Action::Broadcast(0, id) => c.react().broadcast(Pay::<0>::of_case(id)),
